@@ -88,6 +88,8 @@ def arm_facts(body):
                     f['fmt'] = x.args[0].value
                     f['consts'] = [c for c in (_const(a) for a in x.args[1:]) if c is not None]
                     f['call'] = fn
+                if fn == 'int.from_bytes':
+                    f['from_bytes'] = True
                 if isinstance(x.func, ast.Attribute) and x.func.attr == 'readexactly' and x.args:
                     f['read'] = _const(x.args[0])
             if isinstance(x, ast.Subscript) and isinstance(x.slice, ast.Slice) and x.slice.lower is not None and x.slice.upper is not None:
@@ -239,8 +241,17 @@ def varnum_rows(name, tab):
                 d['width'] = sum(fmt_widths(f['fmt']))
                 d['slice_w'] = f['slice_w']
                 d['slice_off'] = f['slice_off']
-            else:
+                d['checked'] = True      # struct.unpack raises struct.error on a short buffer
+            elif f.get('from_bytes') and f['slice_w'] is not None:
+                # int.from_bytes never complains about a short slice: the arm needs its own bounds test
+                d['width'] = d['slice_w'] = f['slice_w']
+                d['slice_off'] = f['slice_off']
+                d['checked'] = f['raises']
+            elif len(rows) == 0:
                 d['width'] = 1
+                d['checked'] = True
+            else:
+                raise AnalysisError(f'parse_tl_num: arm at line {r["line"]} reads the number in a way the table extractor does not know')
         elif name == 'read_tl_num_from_stream':
             if f['fmt']:
                 d['width'] = sum(fmt_widths(f['fmt']))
@@ -283,6 +294,9 @@ def compare_varnum(tabs, only=None):
             if n == 'parse_tl_num' and i > 0:
                 out.append((f'arm {i} slice', n, 'VAR-NUMBER', r.get('slice_w') == width and r.get('slice_off') == 1,
                             f'slice [+{r.get("slice_off")}:+{(r.get("slice_off") or 0) + (r.get("slice_w") or 0)}] vs [+1:+{1 + width}]'))
+                out.append((f'arm {i} truncated number refused', n, 'VAR-NUMBER', bool(r.get('checked')),
+                            'the bytes are read without any check that the buffer holds them (a number cut off by the end of its parent decodes silently)'
+                            if not r.get('checked') else 'fixed-width unpack / explicit bound'))
             if n == 'read_tl_num_from_stream' and i > 0:
                 out.append((f'arm {i} stream read size', n, 'VAR-NUMBER', r.get('read') == width, f'{r.get("read")} vs {width}'))
     return out
